@@ -372,7 +372,7 @@ func c12OwnerRefFilter(r *Run, e *Effect, oldDSKey string, record bool) bool {
 					if !f.Pol {
 						continue
 					}
-					sets, okFlag := ff.FlagTrueFacts(f.V)
+					sets, okFlag := ff.FlagTrueFacts(f.V, ap.Block())
 					if !okFlag || len(sets) == 0 {
 						continue
 					}
